@@ -53,6 +53,15 @@ class DefUse:
                     for x in ast.walk(t):
                         if self_attr(x) and isinstance(x.ctx, ast.Store):
                             out.add(x.attr)
+                    # state created in __init__ but updated in place later (`self.cache[k] = v`, `self.seen[k] += 1`) survives too
+                    r = t
+                    while isinstance(r, ast.Subscript):
+                        r = r.value
+                    if r is not t and self_attr(r):
+                        out.add(r.attr)
+                if isinstance(n, ast.Call) and isinstance(n.func, ast.Attribute) and self_attr(n.func.value) and \
+                        n.func.attr in ('append', 'update', 'setdefault', 'add', 'extend', 'insert', 'pop', 'clear', 'remove', 'popitem', 'discard'):
+                    out.add(n.func.value.attr)
         return out
 
     def ob(self, fn, name, ok, detail):
@@ -169,13 +178,23 @@ class DefUse:
 
 # ---------------------------------------------------------------------------------------- ownership of in-place targets
 ALLOC_CALL_SUFFIXES = ('copy', 'zeros', 'ones', 'uniform', 'random', 'exp', 'log', 'expand', 'project', 'sum', 'logsumexp',
-                       'transpose', 'datavector', 'active', 'belief_propagation', 'mle', 'flatten', 'astype', 'condition',
+                       'active', 'belief_propagation', 'mle', 'flatten', 'astype',
                        'apply', 'max', 'dot', 'keys', 'values', 'items', 'intersection', 'union', 'tocoo', 'to', 'sign')
 ALLOC_NAMES = ('Factor', 'CliqueVector', 'dict', 'list', 'set', 'tuple', 'sorted', 'np.zeros', 'np.ones', 'np.array', 'np.exp', 'np.log',
                'np.where', 'np.nan_to_num', 'np.divide', 'np.repeat', 'np.arange', 'np.modf', 'GraphicalModel', 'defaultdict',
                'self.Factor', 'np.append', 'np.sum', 'logsumexp', 'np.random.choice', 'pd.DataFrame', 'float', 'int', 'len', 'abs',
                'np.sqrt', 'np.sign', 'sparse.eye', 'aslinearoperator', 'np.dtype', 'eigsh', 'lsmr', 'np.dot', 'max', 'min',
-               'torch.tensor', 'torch.LongTensor', 'torch.FloatTensor', 'JunctionTree', 'reduce', 'np.logaddexp', 'np.moveaxis_copy')
+               'torch.tensor', 'torch.LongTensor', 'torch.FloatTensor', 'JunctionTree', 'reduce', 'np.logaddexp', 'np.moveaxis_copy',
+               'np.random.rand', 'prng.rand', 'prng.normal', 'np.random.normal',
+               # read-only view: an in-place update through it raises ValueError instead of changing shared storage
+               'np.broadcast_to')
+
+
+# methods whose result shares storage with the receiver: Factor.transpose (np.moveaxis view) and datavector(flatten=False)
+# (returns self.values); their result is owned exactly when the receiver is.  Both contracts are checked by ReturnsFresh below.
+ALIAS_OF_RECEIVER = ('transpose', 'datavector')
+# repo methods in ALLOC_CALL_SUFFIXES whose "returns an object allocated in the call" contract ReturnsFresh discharges
+# (anything else in the allocator lists is numpy / scipy / pandas / builtins semantics, assumed)
 
 
 def root_name(e):
@@ -198,6 +217,7 @@ class Ownership:
         self.obligations = []
         self.local_fns = {n.name: n for n in ast.walk(self.fn) if isinstance(n, ast.FunctionDef) and n is not self.fn}
         self.returns_alloc = {}
+        self.ctor_mode = False
 
     def ob(self, name, ok, detail):
         o = Obligation('%s::%s/owned-target#%s' % (self.rel, self.qual, name), [], None, function='%s::%s' % (self.rel, self.qual), kind='frame')
@@ -233,12 +253,27 @@ class Ownership:
             if f in self.local_fns:
                 r = self.returns_alloc.get(f, False)
                 return r, r
+            if isinstance(e.func, ast.Attribute) and e.func.attr in ALIAS_OF_RECEIVER:
+                if e.func.attr == 'datavector':
+                    flat = [k.value for k in e.keywords if k.arg == 'flatten'] + list(e.args[:1])
+                    if not flat or not (isinstance(flat[0], ast.Constant) and flat[0].value is False):
+                        return True, True                     # flatten=True (the default): ndarray.flatten() copies
+                return self.fresh(e.func.value, obj, elems)
+            if self.ctor_mode and f in ('Factor', 'self.Factor', 'CliqueVector', 'Dataset') and e.args:
+                # a new object that *holds* its last positional argument(s): storage is fresh only if those are
+                held = e.args[1:] if f != 'CliqueVector' else e.args[:1]
+                fr = [self.fresh(a, obj, elems) for a in held]
+                return True, all(a and b for a, b in fr)
+            if f in ('np.moveaxis', 'np.reshape') and e.args:
+                return self.fresh(e.args[0], obj, elems)      # views of their first argument
+            if isinstance(e.func, ast.Attribute) and e.func.attr in ('reshape', 'view', 'ravel', 'squeeze', 'T'):
+                return self.fresh(e.func.value, obj, elems)   # ndarray views of the receiver
             if f in ALLOC_NAMES or f.split('.')[-1] in ALLOC_CALL_SUFFIXES:
                 return True, True
             return False, False
         if isinstance(e, ast.Name):
             return e.id in obj, e.id in elems
-        if isinstance(e, ast.Attribute) and isinstance(e.value, ast.Name) and e.value.id == 'self':
+        if isinstance(e, ast.Attribute) and isinstance(e.value, ast.Name) and e.value.id == 'self' and not self.ctor_mode:
             # the receiver's own state: writing through it is the method's declared effect (that this state was created in
             # the current call is the def-before-use obligation)
             return True, True
@@ -457,3 +492,123 @@ class Ownership:
 
     def at_end_elems(self):
         return self._end[1]
+
+
+
+class ReturnsFresh(Ownership):
+    """returns-fresh obligations: every `return <expr>` of the function hands out an object (and storage) that was allocated in
+    this activation — never the receiver's own state, a parameter, or a view of either.  This is the callee half of the
+    allocator contract the owned-target analysis uses at call sites (ALLOC_CALL_SUFFIXES); with it, a caller that updates a
+    returned array in place (synthetic_col's `counts *= ...`) provably cannot touch state that outlives the call.
+
+    kind='fresh'  : as above.
+    kind='alias'  : the function is in ALIAS_OF_RECEIVER; every return is either fresh or storage of the receiver (`self.<attr>`
+                    or a view of it) — never of another parameter.  Callers treat the result as owned iff the receiver is.
+    Names that are unbound on a path are vacuously fresh (reading them raises), so all assigned locals start fresh."""
+
+    def __init__(self, rel, qual, kind='fresh', scalar_returns_ok=True):
+        super().__init__(rel, qual)
+        self.kind = kind
+        self.ctor_mode = True
+        self.out_params = ('out',)
+
+    def ob(self, name, ok, detail):
+        o = Obligation('%s::%s/returns-%s#%s' % (self.rel, self.qual, self.kind, name), [], None, function='%s::%s' % (self.rel, self.qual), kind='frame')
+        o.verdict = 'discharged' if ok else 'refuted'
+        o.backend = 'ownership analysis (pv/vc/frames.py)'
+        o.model = {} if ok else detail
+        o.meta = {'base': o.name}
+        self.obligations.append(o)
+
+    def check(self, t, what, need_elems, obj, elems):
+        pass                                      # in-place targets are the owned-target analysis' business
+
+    def run(self):
+        params = {a.arg for a in self.fn.args.args + self.fn.args.kwonlyargs}
+        local = self.assigned_in(self.fn.body) - params
+        self.cur_params = params
+        self.n_returns = 0
+        self.block(self.fn.body, set(local), set(local))
+        if not self.n_returns:
+            self.ob('no-return-statement', False, dict(reason='the function has no `return <expr>`: nothing to establish (vacuous)'))
+        return self.obligations
+
+    def receiver_storage(self, e):
+        while isinstance(e, ast.Call) and isinstance(e.func, ast.Attribute) and e.func.attr in ('reshape', 'view', 'ravel', 'squeeze'):
+            e = e.func.value
+        return isinstance(e, ast.Attribute) and isinstance(e.value, ast.Name) and e.value.id == 'self'
+
+    def stmt(self, s, obj, elems):
+        if isinstance(s, ast.FunctionDef):
+            return
+        if isinstance(s, ast.AugAssign):
+            return                                # in place: the binding, hence its freshness, is unchanged
+        if isinstance(s, ast.Return) and s.value is not None:
+            self.n_returns += 1
+            fo, fe = self.fresh(s.value, obj, elems)
+            ok = fo and fe
+            if isinstance(s.value, ast.Name) and s.value.id in self.out_params and s.value.id in self.cur_params:
+                ok = True                         # the caller-supplied destination (numpy's out= convention) is returned by design
+            if not ok and self.kind == 'alias':
+                v = s.value
+                if isinstance(v, ast.Call) and ast.unparse(v.func) in ('np.moveaxis',) and v.args:
+                    v = v.args[0]
+                if isinstance(v, ast.Call) and ast.unparse(v.func) in ('Factor', 'self.Factor') and len(v.args) == 2:
+                    v = v.args[1]
+                    if isinstance(v, ast.Name):
+                        # a local bound to a view of the receiver's storage
+                        binds = [n.value for n in ast.walk(self.fn) if isinstance(n, ast.Assign) and any(isinstance(t, ast.Name) and t.id == v.id for t in n.targets)]
+                        ok = bool(binds) and all(isinstance(b, ast.Call) and ast.unparse(b.func) in ('np.moveaxis', 'np.reshape') and b.args
+                                                 and (self.receiver_storage(b.args[0]) or self.fresh(b.args[0], obj, elems) == (True, True)) for b in binds)
+                if not ok:
+                    ok = self.receiver_storage(v)
+            self.ob('return@%s' % ast.unparse(s.value)[:50].replace(' ', ''), ok,
+                    dict(returned=ast.unparse(s.value), line=s.lineno,
+                         reason='the returned object (or the array it holds) is not allocated in this call: it is the receiver\'s '
+                                'state, a parameter, or a view of one — a caller updating it in place changes state that outlives the call'))
+            return
+        super().stmt(s, obj, elems)
+
+
+
+class EscapesFresh(ReturnsFresh):
+    """escaping-state obligations: every `self.<attr> = <expr>` for the listed attributes stores an object allocated in this
+    activation.  For FactoredInference.model (the object `estimate` returns) this is the immutable-snapshot half of C13: together
+    with def-before-use of `model`, call k+1 builds and updates its own model object and cannot reach the one call k returned."""
+
+    def __init__(self, rel, qual, attrs):
+        super().__init__(rel, qual, 'fresh')
+        self.attrs = set(attrs)
+
+    def ob(self, name, ok, detail):
+        o = Obligation('%s::%s/stores-fresh#%s' % (self.rel, self.qual, name), [], None, function='%s::%s' % (self.rel, self.qual), kind='frame')
+        o.verdict = 'discharged' if ok else 'refuted'
+        o.backend = 'ownership analysis (pv/vc/frames.py)'
+        o.model = {} if ok else detail
+        o.meta = {'base': o.name}
+        self.obligations.append(o)
+
+    def run(self):
+        params = {a.arg for a in self.fn.args.args + self.fn.args.kwonlyargs}
+        local = self.assigned_in(self.fn.body) - params
+        self.cur_params = params
+        self.n_returns = 0
+        self.n_stores = 0
+        self.block(self.fn.body, set(local), set(local))
+        if not self.n_stores:
+            self.ob('no-store', False, dict(reason='no assignment to self.%s in this function: nothing to establish (vacuous)' % '/'.join(sorted(self.attrs))))
+        return self.obligations
+
+    def stmt(self, s, obj, elems):
+        if isinstance(s, ast.Return):
+            return
+        if isinstance(s, ast.Assign):
+            for t in s.targets:
+                if self_attr(t) and t.attr in self.attrs:
+                    self.n_stores += 1
+                    fo, fe = self.fresh(s.value, obj, elems)
+                    self.ob('self.%s=%s' % (t.attr, ast.unparse(s.value)[:40].replace(' ', '')), fo,
+                            dict(stored=ast.unparse(s.value), line=s.lineno,
+                                 reason='the object stored in self.%s (and handed to the caller) is not allocated in this call on every '
+                                        'path: a later call would update the object an earlier call returned' % t.attr))
+        super().stmt(s, obj, elems)
